@@ -8,3 +8,9 @@ import Props.C10
 #print axioms T4Spec.convert_energy_axis
 #print axioms T4Spec.convert_single
 #print axioms T4Spec.fillRows_single
+#print axioms T4Spec.all_axes_score_attached
+#print axioms T4Spec.axis_bins_increasing
+#print axioms T4Spec.time_edges_collected
+#print axioms T4Spec.score_at_cursor
+#print axioms T4Spec.fill_cells
+#print axioms T4Spec.convert_ok
